@@ -31,6 +31,9 @@ FILTERS = [("ev.g1 = 'a'", ["g1"], False), ("ev.g1 IN ('a', 'b')", ["g1"], False
            ("ev.g2 IS NOT NULL AND ev.g1 <> 'b'", ["g2", "g1"], False), ("ev.w = 1", ["w"], False),
            # the same syntactic forms on the sibling column (names that differ only in a digit: address1 / address2, geo_level1 / geo_level2)
            ("ev.g2 = 'x'", ["g2"], False), ("ev.g2 IN ('x', 'y')", ["g2"], False), ("ev.g1 IS NULL", ["g1"], False), ("ev.g1 <> 'b'", ["g1"], False), ("ev.v = 1", ["v"], False)]
+# literals that LOOK like the names the routed query rewrites (the time dimension's name, the model name followed by a dot): data, not references
+LITERAL_FILTERS = [("ev.g1 = 'ts'", ["g1"], False), ("ev.g1 IN ('ts', 'a')", ["g1"], False), ("ev.g1 <> 'dev.x'", ["g1"], False), ("ev.g1 = 'ev.ts'", ["g1"], False),
+                   ("ev.g1 = 'dev.x' OR ev.g1 = 'ts'", ["g1"], False), ("ev.g1 LIKE 'ev%'", ["g1"], False), ("ev.g1 = 'ev_cte.g1'", ["g1"], False)]
 class _FCols(dict):
     def __missing__(self, f):
         import re
@@ -38,7 +41,7 @@ class _FCols(dict):
         return (cols, "ts" in cols)
 
 
-FCOLS = _FCols({f: (cols, raw) for f, cols, raw in FILTERS})
+FCOLS = _FCols({f: (cols, raw) for f, cols, raw in FILTERS + LITERAL_FILTERS})
 
 PREAMBLE = """From Coq Require Import ZArith String List Bool.
 Require Import V.Base.PyLib V.Base.Calendar V.Base.CalendarFacts V.Model.Refresh V.Model.Preagg V.Gen.Derivable_gen V.Gen.GranCompat_gen.
@@ -138,6 +141,20 @@ def gen_two_grans(rng):
     a, b = rng.choice([("day", "month"), ("week", "month"), ("day", "week"), ("month", "year"), ("day", "quarter"), ("week", "year")])
     case["dims"] = ["ts__" + a, "ts__" + b] if rng.random() < 0.5 else ["ts__" + b, "ts__" + a]
     case["filters"] = []
+    return case
+
+
+def gen_literal_case(rng):
+    """targeted family: filter literals equal to the time dimension's name or containing the model name and a dot, on data that holds such values; the rollup has the
+    filtered column, so the query is routed -- and must keep comparing with the SAME literal"""
+    case = gen_friendly(rng)
+    vals = ["ts", "dev.x", "ev.ts", "a", "ev_cte.g1", "ev.", None]
+    case["rows"] = [(r[0], r[1], rng.choice(vals), r[3], 0 if r[4] is None else r[4], r[5]) for r in case["rows"]] or [(1, datetime.datetime(2024, 1, 5), "ts", "x", 3, 1), (2, datetime.datetime(2024, 1, 9), "dev.x", "y", 4, 0)]
+    ms = rng.sample(["rev", "cntv", "mx", "mn", "cnt"], rng.randint(1, 3))
+    case["preaggs"] = [dict(name="r0", measures=ms, dimensions=["g1"] + (["g2"] if rng.random() < 0.3 else []), time_dimension="ts", granularity=rng.choice(["day", "month"]))]
+    case["mets"] = list(ms[:2])
+    case["dims"] = rng.choice([[], ["g1"], ["ts__month"], ["g1", "ts__month"]])
+    case["filters"] = [f for f, _, _ in rng.sample(LITERAL_FILTERS, rng.randint(1, 2))]
     return case
 
 
@@ -412,7 +429,7 @@ def run(c):
     n = 260 if c.tier == "quick" else 4000
     cases = corpus_cases() + [(gen_friendly(c.rng) if k % 2 else gen_case(c.rng)) for k in range(n)] + [gen_candidates(c.rng) for _ in range(max(12, n // 10))]
     cases = [x for _ in range(max(8, n // 30)) for x in gen_sibling_pair(c.rng)] + cases
-    cases = cases + [gen_two_grans(c.rng) for _ in range(max(16, n // 12))]
+    cases = cases + [gen_two_grans(c.rng) for _ in range(max(16, n // 12))] + [gen_literal_case(c.rng) for _ in range(max(16, n // 12))]
     results, terms, tindex = [], [], []
     stats = {"routed": 0, "not_routed": 0, "routed_equal": 0, "model_compared": 0, "exact_routes": 0, "inexact_routes": 0, "materialisation_errors": 0}
     for i, case in enumerate(cases):
